@@ -189,6 +189,12 @@ func runCheckStake(ctx *action.Context, tx action.RawTx) (bool, action.Response)
 		return false, action.Response{Log: evidence.ErrFrozenValidator.Error()}
 	}
 
+	// the validator address is the address of its consensus key: a record under another address
+	// would put the same key into the validator updates twice, which Tendermint rejects
+	if h, err := st.ValidatorPubKey.GetHandler(); err != nil || !h.Address().Equal(st.ValidatorAddress) {
+		return false, action.Response{Log: action.ErrInvalidPubkey.Error()}
+	}
+
 	stake := identity.Stake{
 		ValidatorAddress: st.ValidatorAddress,
 		StakeAddress:     st.StakeAddress,
